@@ -605,10 +605,10 @@ func c02SipProgram(n int, salt byte, tail string) (string, []netip.Addr) {
 	for i := 0; i < n; i++ {
 		a := netip.AddrFrom4([4]byte{172, salt, byte(i >> 8), byte(i)})
 		addrs = append(addrs, a)
-		fmt.Fprintf(&sb, "  sip(%s) -> g%d\n", a, 2+i%2)
+		fmt.Fprintf(&sb, "  sip(%s) -> %s\n", a, c01Outs[2+i%2])
 	}
 	sb.WriteString(tail)
-	sb.WriteString("  fallback: g7\n}\n")
+	sb.WriteString("  fallback: " + c01Outs[7] + "\n}\n")
 	return sb.String(), addrs
 }
 
@@ -616,10 +616,10 @@ func c02PortProgram(n int, tail string) string {
 	var sb strings.Builder
 	sb.WriteString("global {}\nrouting {\n")
 	for i := 0; i < n; i++ {
-		fmt.Fprintf(&sb, "  dport(%d) -> g%d\n", 2000+i, 2+i%2)
+		fmt.Fprintf(&sb, "  dport(%d) -> %s\n", 2000+i, c01Outs[2+i%2])
 	}
 	sb.WriteString(tail)
-	sb.WriteString("  fallback: g7\n}\n")
+	sb.WriteString("  fallback: " + c01Outs[7] + "\n}\n")
 	return sb.String()
 }
 
